@@ -142,7 +142,7 @@ class RefEvaluator:
             return self.fold(e.children, operator.add, 0)
         elif t == "Product":
             return self.fold(e.children, operator.mul, 1)
-        elif t == "Quotient":
+        elif t == "Quotient" or t == "Rational":
             a, b = self.strict([e.numerator, e.denominator])
             return _apply(operator.truediv, a, b)
         elif t == "FloorDiv":
